@@ -23,7 +23,7 @@ const MAX_OBJ: usize = 4;
 const CANARY: u64 = 0x5a5a_0000_a5a5_0000;
 
 #[derive(Clone, Copy, PartialEq)]
-enum Act { Nothing, ResurrectSelf, ResurrectNeighbour, UpgradeStore, UpgradeProbe, Collect, Alloc, ClearSlot0, ResurrectIntoSelf, ReleaseHeld }
+enum Act { Nothing, ResurrectSelf, ResurrectNeighbour, UpgradeStore, UpgradeProbe, Collect, Alloc, ClearSlot0, ResurrectIntoSelf, ReleaseHeld, AllocAuto }
 
 struct G {
     trace_calls: [u32; MAX_OBJ], finalize_calls: [u32; MAX_OBJ], drop_calls: [u32; MAX_OBJ],
@@ -98,6 +98,14 @@ fn do_action(this: &Node, act: Act, target: usize) {
         }
         Act::ClearSlot0 => { let old = this.s0.try_borrow_mut().ok().and_then(|mut b| b.take()); drop(old); }
         Act::ReleaseHeld => unsafe { let h = HELD[target].take(); drop(h); },
+        Act::AllocAuto => {
+            #[cfg(feature = "auto-collect")]
+            rust_cc::config::config(|c| c.set_auto_collect(true)).unwrap();
+            let c = Cc::new(Leaf(9));
+            #[cfg(feature = "auto-collect")]
+            rust_cc::config::config(|c| c.set_auto_collect(false)).unwrap();
+            drop(c);
+        }
         Act::ResurrectIntoSelf => { if let Some(c) = clone_of(id) { if let Ok(mut b) = this.s1.try_borrow_mut() { *b = Some(c); } } }
     }
 }
